@@ -80,7 +80,7 @@ func TestC17(t *testing.T) {
 			pair.New.Normalize()
 			Ev.Probe("new_build_with_many_more_files_than_old")
 		}
-		family := rapid.IntRange(0, 5).Draw(rt, "family") == 0 && canPlace(pair.Old, "fam/x.bin") && canPlace(pair.New, "fam/a.bin")
+		family := rapid.IntRange(0, 2).Draw(rt, "family") == 0 && canPlace(pair.Old, "fam/x.bin") && canPlace(pair.New, "fam/a.bin")
 		if family {
 			// two old files of one size; three new files, the first derived from one of them, the other
 			// two from the other one (an optimized patch then has bsdiff series against X, Y, Y)
@@ -158,7 +158,7 @@ func TestC17(t *testing.T) {
 				}
 			}
 		}
-		if family && rapid.IntRange(0, 3).Draw(rt, "famskipmiddle") != 0 {
+		if family && rapid.IntRange(0, 7).Draw(rt, "famskipmiddle") != 0 {
 			for i, f := range source.Files {
 				switch f.Path {
 				case "fam/a.bin", "fam/c.bin":
